@@ -60,7 +60,7 @@ def execute(c):
         fb = np.zeros((n, 3), dtype=np.float32); fb[:, 1] = xs0
         ib = np.zeros((n, 2), dtype=np.int32); ib[:, 0] = ty0; ib[:, 1] = e0
         xs0, ty0, e0 = fb[:, 1], ib[:, 0], ib[:, 1]
-    t0 = Tree(n, id=np.arange(n, dtype=np.int32), pid=np.array(P, dtype=np.int32), x=xs0, type=ty0, e=e0)
+    t0 = Tree(n, source=lib.SRC, id=np.arange(n, dtype=np.int32), pid=np.array(P, dtype=np.int32), x=xs0, type=ty0, e=e0)
     if lib.vid(c) % 3 == 1 and t0.ndata["x"].flags["C_CONTIGUOUS"]:
         t0.ndata["x"], t0.ndata["type"] = xs0, ty0          # the constructor made them contiguous: install the strided columns directly
     trees, views = [t0], []       # views: (kind, object, origin_ids-for-detached)
